@@ -18,7 +18,7 @@ func frameMC(c *Ctx) {
 	}
 	for _, f := range confs {
 		for _, b := range bufs {
-			cfg := fmt.Sprintf("CONSTANTS\n Files <- %s\n BufSize = %d\n DataWithErr = TRUE\n PreFixChainRule = FALSE\nSPECIFICATION Spec\nINVARIANTS NeverPastFrame SuccessConsumesExactly TruncationIsError FaultIsError CleanEndIsOk PartialContent\nPROPERTY Terminates\nCHECK_DEADLOCK FALSE\n", f, b)
+			cfg := fmt.Sprintf("CONSTANTS\n FileSets <- %s\n BufSize = %d\n DataWithErr = TRUE\n PreFixChainRule = FALSE\nSPECIFICATION Spec\nINVARIANTS NeverPastFrame SuccessConsumesExactly TruncationIsError FaultIsError CleanEndIsOk PartialContent\nPROPERTY Terminates\nCHECK_DEADLOCK FALSE\n", f, b)
 			r := c.runTLC(TLCRun{Module: "MC_FrameImpl", Cfg: cfg, Workers: 4, HeapGB: 4})
 			if r.Exit != 0 {
 				if strings.Contains(r.Out, "is violated") {
@@ -32,7 +32,7 @@ func frameMC(c *Ctx) {
 		}
 	}
 	// non-vacuity: the model with the pre-fix chain rule must violate FaultIsError
-	cfg := "CONSTANTS\n Files <- MC_Files2\n BufSize = 4\n DataWithErr = TRUE\n PreFixChainRule = TRUE\nSPECIFICATION Spec\nINVARIANTS FaultIsError\nCHECK_DEADLOCK FALSE\n"
+	cfg := "CONSTANTS\n FileSets <- MC_Files2\n BufSize = 4\n DataWithErr = TRUE\n PreFixChainRule = TRUE\nSPECIFICATION Spec\nINVARIANTS FaultIsError\nCHECK_DEADLOCK FALSE\n"
 	r := c.runTLC(TLCRun{Module: "MC_FrameImpl", Cfg: cfg, Workers: 1, HeapGB: 2})
 	c.Cov["model_detects_prefix_chain_rule"] = strings.Contains(r.Out, "Invariant FaultIsError is violated")
 	if !strings.Contains(r.Out, "Invariant FaultIsError is violated") {
@@ -108,6 +108,7 @@ func runC10(c *Ctx) {
 		calls = append(calls, cl)
 		return cl
 	}
+	members := map[int][][]byte{}
 	alone := map[string]string{}
 	aloneProj := func(b []byte) string {
 		if s, ok := alone[string(b)]; ok {
@@ -134,6 +135,7 @@ func runC10(c *Ctx) {
 			for _, api := range []string{"decode", "integrity", "header", "header_fileid", "integrity_hdr"} {
 				cl := run(api, trail, rs, fmt.Sprintf("pool[%d] + trailing bytes, chunks %v", i, ch))
 				got[api] = cl
+				members[cl.ID] = [][]byte{b}
 				if (api == "decode" || api == "integrity") && cl.Ret.Err == 0 && cl.Ret.Consumed != len(b) {
 					c.report("consumed", fmt.Sprintf("%s consumed %d bytes of a %d-byte file", api, cl.Ret.Consumed, len(b)), cl)
 				}
@@ -165,7 +167,7 @@ func runC10(c *Ctx) {
 	mismatchAlone := 0
 	for i := 0; i < nchains; i++ {
 		k := 2 + rng.Intn(2)
-		var members [][]byte
+		var chainMembers [][]byte
 		var all []byte
 		for j := 0; j < k; j++ {
 			m := pool[rng.Intn(len(pool))]
@@ -173,7 +175,7 @@ func runC10(c *Ctx) {
 				j--
 				continue
 			}
-			members = append(members, m)
+			chainMembers = append(chainMembers, m)
 			all = append(all, m...)
 		}
 		ch := chunkScripts[rng.Intn(len(chunkScripts))]
@@ -181,8 +183,9 @@ func runC10(c *Ctx) {
 			ch = []int{4096}
 		}
 		cl := run("chained", all, readScript{chunks: ch, cut: -1, fault: -1, withEOF: rng.Intn(2) == 0}, fmt.Sprintf("chain of %d, chunks %v", k, ch))
+		members[cl.ID] = chainMembers
 		if cl.Ret.Err == 0 && len(cl.Ret.Files) == k {
-			for j, m := range members {
+			for j, m := range chainMembers {
 				js, _ := json.Marshal([]*FileProj{cl.Ret.Files[j]})
 				if string(js) != aloneProj(m) {
 					mismatchAlone++
@@ -195,6 +198,7 @@ func runC10(c *Ctx) {
 	mm := c.validateCalls(p, sch, calls, 14)
 	c.reportFamily(p, mm, nil)
 	c.verdictStats(calls)
+	c.frameConformance(calls, members)
 	c.Cov["pool_files"] = len(pool)
 	c.Cov["chains"] = nchains
 	c.Cov["chained_vs_alone_differences"] = mismatchAlone
